@@ -99,6 +99,18 @@ def check_input(O, S, leafmap):
         wantc = mine[0] * costs[1] + mine[1] * costs[3]
         if ic != wantc:
             return ("cost_mismatch", f"implementation cost {ic} of the LCA reconciliation != model cost {wantc} at {costs}"), True
+    # the same input read back from its dictionary form (as the command-line tool builds it), zero unit costs included
+    for costs in ((0, 0, 7, 5, 1), (0, 5, 1, 0, 1), (0, 2, 3, 4, 0)):
+        inp3, _, _ = A.build_input(O, S, leafmap, costs)
+        try:
+            back = type(inp3).from_dict(inp3.to_dict())
+            ic = A.impl_cost(reconcile_lca(back).cost())
+        except Exception as exc:
+            return ("exception", f"from_dict / reconcile_lca raised {type(exc).__name__}: {exc} at costs {costs}"), True
+        wantc = mine[0] * costs[1] + mine[1] * costs[3]
+        if ic != wantc:
+            return ("cost_mismatch", f"input read back from its dictionary form: LCA reconciliation costs {ic}, model cost {wantc} "
+                    f"at {costs}"), True
     return None, (mine != (0, 0) or len(summ) >= 2)
 
 
